@@ -101,6 +101,7 @@ func ToJSONSchema(input any, opts ...Options) (*lib.Schema, error) {
 // toJSONSchemaSingle handles the conversion of a single ZodSchema.
 func toJSONSchemaSingle(schema core.ZodSchema, opts Options) (*lib.Schema, error) {
 	c := newConverter(opts)
+	c.root = schema
 	s, err := c.convert(schema)
 	if err != nil {
 		return nil, err
@@ -161,6 +162,8 @@ type converter struct {
 	depth       int
 	idCache     map[core.ZodSchema]string         // cache for getID results
 	unwrapCache map[core.ZodSchema]core.ZodSchema // cache for unwrapSchema results
+	root        core.ZodSchema                    // the schema ToJSONSchema was called with ("#")
+	lazyDefs    map[core.ZodSchema]*lib.Schema    // $defs entries promised to Lazy references, filled when the target's conversion returns
 }
 
 func newConverter(opts Options) *converter {
@@ -172,6 +175,7 @@ func newConverter(opts Options) *converter {
 		defs:        make(map[string]*lib.Schema),
 		idCache:     make(map[core.ZodSchema]string),
 		unwrapCache: make(map[core.ZodSchema]core.ZodSchema),
+		lazyDefs:    make(map[core.ZodSchema]*lib.Schema),
 	}
 }
 
@@ -282,6 +286,11 @@ func (c *converter) convert(schema core.ZodSchema) (*lib.Schema, error) {
 
 	// Attach metadata (title, description, examples) if available
 	c.applyMeta(schema, finalSchema)
+
+	// A Lazy below referred to this schema while it was being converted: fill in the definition it was promised.
+	if slot, ok := c.lazyDefs[schema]; ok {
+		*slot = *finalSchema
+	}
 
 	// Ensure a definition is registered **before** any placeholder replacement so that future
 	// conversions (especially wrappers / lazy) can immediately resolve a $ref.
@@ -1446,6 +1455,31 @@ func isCompositeType(t core.ZodTypeCode) bool {
 	return ok
 }
 
+// lazyRef answers a Lazy whose inner schema is already in c.seen: by registry ID, by the
+// $defs name it has, by "#" when it is the root — and otherwise by a new $defs entry, because
+// "#" names the root document, not the schema the Lazy resolves to. When the target is still
+// being converted (a cycle) the entry is filled in when that conversion returns.
+func (c *converter) lazyRef(target core.ZodSchema) *lib.Schema {
+	if id := c.getID(target); id != "" {
+		return &lib.Schema{Ref: "#/$defs/" + id}
+	}
+	base := c.unwrapSchema(target)
+	if name, ok := c.refs[base]; ok {
+		return &lib.Schema{Ref: "#/$defs/" + name}
+	}
+	if target == c.root {
+		return &lib.Schema{Ref: "#"}
+	}
+	c.auto++
+	name := fmt.Sprintf("def%d", c.auto)
+	slot := &lib.Schema{}
+	*slot = *c.seen[target]
+	c.lazyDefs[target] = slot
+	c.refs[base] = name
+	c.defs[name] = slot
+	return &lib.Schema{Ref: "#/$defs/" + name}
+}
+
 // convertLazy resolves inner schema and delegates conversion.
 func (c *converter) convertLazy(schema core.ZodSchema) (*lib.Schema, error) {
 	// Use interface assertion to get inner schema
@@ -1456,14 +1490,8 @@ func (c *converter) convertLazy(schema core.ZodSchema) (*lib.Schema, error) {
 		if zodSchema, ok := inner.(core.ZodSchema); ok {
 			// Check if this creates a cycle by looking for the inner schema in our path
 			if _, found := c.seen[zodSchema]; found {
-				// This is a cycle, return a reference to the root or $defs if available
-				if id := c.getID(zodSchema); id != "" {
-					return &lib.Schema{Ref: "#/$defs/" + id}, nil
-				}
-				if name, ok := c.refs[c.unwrapSchema(zodSchema)]; ok {
-					return &lib.Schema{Ref: "#/$defs/" + name}, nil
-				}
-				return &lib.Schema{Ref: "#"}, nil
+				// This is a cycle (or a schema converted before): return a reference to it
+				return c.lazyRef(zodSchema), nil
 			}
 			return c.convert(zodSchema)
 		}
@@ -1475,13 +1503,7 @@ func (c *converter) convertLazy(schema core.ZodSchema) (*lib.Schema, error) {
 				if zodSchema, ok := actualInner.(core.ZodSchema); ok {
 					// Detect potential cycles
 					if _, found := c.seen[zodSchema]; found {
-						if id := c.getID(zodSchema); id != "" {
-							return &lib.Schema{Ref: "#/$defs/" + id}, nil
-						}
-						if name, ok := c.refs[c.unwrapSchema(zodSchema)]; ok {
-							return &lib.Schema{Ref: "#/$defs/" + name}, nil
-						}
-						return &lib.Schema{Ref: "#"}, nil
+						return c.lazyRef(zodSchema), nil
 					}
 					return c.convert(zodSchema)
 				}
